@@ -478,7 +478,11 @@ class PtBuild:
     """pytato build of a spec via the public API."""
 
     def __init__(self, spec: dict[str, Any], vset: int = 0,
-                 namer: Any = None, data_values: dict[int, np.ndarray] | None = None):
+                 namer: Any = None, data_values: dict[int, np.ndarray] | None = None,
+                 post: Any = None, order: list[int] | None = None):
+        """*post(id, array)* may return a decorated (e.g. tagged) array for every input
+        and node; *order* is an alternative (dependency-respecting) creation order of
+        the node ids."""
         import pytato as pt
         self.spec = spec
         self.nodes: dict[int, Any] = {}
@@ -499,9 +503,18 @@ class PtBuild:
                 self.nodes[i] = pt.make_data_wrapper(iv[i])
             else:
                 raise ValueError(kind)
-        for nd in spec["nodes"]:
+            if post is not None:
+                self.nodes[i] = post(i, self.nodes[i])
+        nodes = spec["nodes"]
+        if order is not None:
+            byid = {n["id"]: n for n in nodes}
+            nodes = [byid[i] for i in order]
+        for nd in nodes:
             args = [self.nodes[a] if is_ref(a) else dec_scalar(a) for a in nd["args"]]
-            self.nodes[nd["id"]] = pt_apply(nd["op"], args, nd.get("params", {}))
+            r = pt_apply(nd["op"], args, nd.get("params", {}))
+            if post is not None:
+                r = post(nd["id"], r)
+            self.nodes[nd["id"]] = r
 
     def outputs(self) -> dict[str, Any]:
         return {k: self.nodes[v] for k, v in self.spec["outputs"].items()}
